@@ -142,6 +142,46 @@ def parse_posix(text):
     return ('A', std, dst, sd, st, ed, et)
 
 
+# ------------------------------------------------------------------ calendar (generator side)
+# gen/C16.py's helpers port a C++ algorithm written for truncating division and are off by one day
+# for years below 0 under Python's floor division; these are the floor-arithmetic versions.
+def days_from_civil(y, m, d):
+    y -= m <= 2
+    era = y // 400
+    yoe = y - era * 400
+    doy = (153 * ((m + 9) % 12) + 2) // 5 + d - 1
+    doe = yoe * 365 + yoe // 4 - yoe // 100 + doy
+    return era * 146097 + doe - 719468
+
+
+def year_of(t):
+    z = t // 86400 + 719468
+    era = z // 146097
+    doe = z - era * 146097
+    yoe = (doe - doe // 1460 + doe // 36524 - doe // 146096) // 365
+    doy = doe - (365 * yoe + yoe // 4 - yoe // 100)
+    mp = (5 * doy + 2) // 153
+    return yoe + era * 400 + (mp >= 10)
+
+
+def rule_day(day, y):
+    """days since the epoch of a rule date ('J', n) / ('N', n) / ('M', m, w, d) in year y"""
+    jan1 = days_from_civil(y, 1, 1)
+    leap = y % 4 == 0 and (y % 100 != 0 or y % 400 == 0)
+    if day[0] == 'J':
+        n = day[1]
+        return jan1 + n - 1 + (1 if leap and n >= 60 else 0)
+    if day[0] == 'N':
+        return jan1 + day[1]
+    _, m, w, d = day
+    first = days_from_civil(y, m, 1)
+    occ = first + (d - (first + 4) % 7) % 7 + 7 * (w - 1)     # 1970-01-01 was a Thursday; Sunday = 0
+    nxt = days_from_civil(y + (m == 12), m % 12 + 1, 1)
+    if occ >= nxt:
+        occ -= 7
+    return occ
+
+
 # ------------------------------------------------------------------ zone model (generator side)
 class ZM:
     """first offset, [(instant, offset from then on)], rule (None | ('F', off) | ('A', ...))"""
@@ -169,8 +209,8 @@ class ZM:
     def rule_events(self, y):
         """[(instant, offset before, offset after)] of the rule in year y"""
         _, std, dst, sd, st, ed, et = self.rule
-        return [(g16.rule_day(sd, y) * 86400 + st - std, std, dst),
-                (g16.rule_day(ed, y) * 86400 + et - dst, dst, std)]
+        return [(rule_day(sd, y) * 86400 + st - std, std, dst),
+                (rule_day(ed, y) * 86400 + et - dst, dst, std)]
 
     def windows(self):
         cur, ws = self.first, []
@@ -201,7 +241,7 @@ class ZM:
             if ok and self.trans and self.rule and self.rule[0] == 'A':
                 tn, on = self.trans[-1]
                 p = self.trans[-2][1] if len(self.trans) > 1 else self.first
-                y = g16.year_of(tn)
+                y = year_of(tn)
                 for yy in (y - 1, y, y + 1):
                     for r, before, after in self.rule_events(yy):
                         lo, hi = r + min(before, after), r + max(before, after)
@@ -215,7 +255,7 @@ class ZM:
         if not self._table_spaced:
             return False
         if self.rule and self.rule[0] == 'A':
-            return self.rule_regular(g16.year_of(w))
+            return self.rule_regular(year_of(w))
         return True
 
 
@@ -319,7 +359,7 @@ def zone_points(zm, rng, wide_every, years, sparse):
 def rule_years(zm, base):
     ys = set(base)
     if zm.trans:
-        y0 = g16.year_of(max(min(zm.trans[-1][0], 10**11), -10**11))
+        y0 = year_of(max(min(zm.trans[-1][0], 10**11), -10**11))
         ys.update([y0 - 1, y0, y0 + 1, y0 + 2])
     return sorted(ys)
 
@@ -340,7 +380,7 @@ def emit(src, zm, ins, walls, batch, rt_share, rng):
     memo = {}
 
     def spaced(x):
-        y = g16.year_of(x) if zm.rule and zm.rule[0] == 'A' else 0
+        y = year_of(x) if zm.rule and zm.rule[0] == 'A' else 0
         if y not in memo:
             memo[y] = zm.spaced(x)
         return memo[y]
@@ -352,7 +392,7 @@ def emit(src, zm, ins, walls, batch, rt_share, rng):
         reg = {}
 
         def regular(t):
-            y = g16.year_of(t)
+            y = year_of(t)
             if y not in reg:
                 reg[y] = zm.rule_regular(y)
             return reg[y]
@@ -445,7 +485,7 @@ def synth_zone(rng):
         t = z.trans[-1][0]
         if rule.dst and rng.random() < 0.5:
             # the last table transition is a transition of the rule, as in real files
-            y = g16.year_of(t)
+            y = year_of(t)
             s, e = rule.switches(y)
             t2 = rng.choice([s, e])
             if (len(z.trans) < 2 or z.trans[-2][0] < t2) and lo <= t2 <= hi:
